@@ -94,6 +94,21 @@ func cases(c gen.C08Case) (with, without rescorr.Case) {
 	}
 	with = rescorr.Case{Names: append(append([]string{}, c.BaseNames...), c.DevNames...),
 		Texts: append(append([]string{}, wb...), c.DevTexts...), IgnoreNotSupported: c.IgnoreNS}
+	if len(c.PathRoots) > 0 {
+		// files on disk: only the roots are handed to Parse, everything else (the deviating modules in
+		// particular) is found on the search path by the first Process, through imports / includes
+		with.Names = append(with.Names, c.LoaderNames...)
+		with.Texts = append(with.Texts, c.LoaderTexts...)
+		var idx []string
+		for _, r := range c.PathRoots {
+			for i, n := range with.Names {
+				if n == r {
+					idx = append(idx, fmt.Sprint(i))
+				}
+			}
+		}
+		with.Extra = map[string]string{"from_path": "1", "roots": strings.Join(idx, ",")}
+	}
 	return
 }
 
@@ -310,6 +325,7 @@ func parseSpec(a string) (specAns, bool) {
 }
 
 type stats struct {
+	noModel, fromPath                                                                                            int64
 	evaluated, clean, reportedAsClaimed, unclaimedReported, unclaimedApplied, baseErr, outside, parse, badTypeCases int64
 	targets, framed                                                                                              int64
 	notInBase                                                                                                    int64
@@ -364,6 +380,9 @@ func evaluate(items []gen.C08Case, f *lib.Flags, res *lib.Result, st *stats, ver
 	for i, it := range items {
 		ow, owo := outs[2*i], outs[2*i+1]
 		st.evaluated++
+		if len(it.PathRoots) > 0 {
+			st.fromPath++
+		}
 		if verbose {
 			for k := range it.DevNames {
 				fmt.Printf("--- %s\n%s", it.DevNames[k], it.DevTexts[k])
@@ -386,6 +405,10 @@ func evaluate(items []gen.C08Case, f *lib.Flags, res *lib.Result, st *stats, ver
 		for k, o := range []rescorr.Outcome{ow, owo} {
 			if o.Outside != "" {
 				st.outside++
+				continue
+			}
+			if o.NoModel != "" {
+				st.noModel++ // files on disk, loaded set not a plain set of texts (two revisions): Go-side checks only
 				continue
 			}
 			g := lib.Project(o.Go.Dump, keys, true)
@@ -502,6 +525,10 @@ func evaluate(items []gen.C08Case, f *lib.Flags, res *lib.Result, st *stats, ver
 		for _, m := range it.DevMods {
 			devMod[m] = true
 		}
+		loader := map[string]bool{}
+		for _, n := range it.LoaderNames {
+			loader[strings.TrimSuffix(n, ".yang")] = true
+		}
 		isTarget := func(path string) bool { _, ok := p.last[path]; return ok }
 		belowRemoved := func(path string) bool {
 			for _, r := range p.removed {
@@ -543,7 +570,7 @@ func evaluate(items []gen.C08Case, f *lib.Flags, res *lib.Result, st *stats, ver
 		}
 		sort.Strings(wpaths)
 		for _, path := range wpaths {
-			if _, there := base[path]; there || (devMod[with[path].mod] && !stripped(it)) {
+			if _, there := base[path]; there || (devMod[with[path].mod] && !stripped(it)) || loader[with[path].mod] {
 				continue
 			}
 			if p.implicit[path] {
@@ -682,13 +709,25 @@ func main() {
 	if os.Getenv("C08_PART") == "random" {
 		items = nil // diagnostics only: see what the random part finds on its own
 	}
+	// every fifth enumerated case also as a files-on-disk run (deviating modules found by the first Process)
+	for i, n := 0, len(items); i < n; i++ {
+		if i%5 == 2 {
+			if c := gen.C08FromDisk(items[i], i/5%2); len(c.PathRoots) > 0 {
+				items = append(items, c)
+			}
+		}
+	}
 	nEx := len(items)
 	n := 15000
 	if f.Thorough() {
 		n = 300000
 	}
 	for i := 0; i < n; i++ {
-		items = append(items, gen.C08Random(f.Rand(i)))
+		c := gen.C08Random(f.Rand(i))
+		if i%6 == 4 {
+			c = gen.C08FromDisk(c, i/6%2)
+		}
+		items = append(items, c)
 	}
 	// in slices, so that a mass disagreement stops the run early
 	const slice = 4000
@@ -732,6 +771,8 @@ func main() {
 	res.Distribution["base_has_errors"] = st.baseErr
 	res.Distribution["base_error_classes"] = st.baseErrClass
 	res.Distribution["outside_model_runs"] = st.outside
+	res.Distribution["with_run_from_files_on_disk(first Process, deviating modules reached through imports/includes)"] = st.fromPath
+	res.Distribution["from_disk_runs_model_not_asked(two revisions loaded)"] = st.noModel
 	res.Distribution["go_parse_rejected"] = st.parse
 	res.Distribution["targets_compared_with_spec"] = st.targets
 	res.Distribution["frame_records_compared"] = st.framed
